@@ -53,6 +53,11 @@ const KEYS: [&str; 25] = [
 ];
 
 fn mk_style(key: &str, obs: &Arc<StdMutex<ObsShared>>, aux: &Arc<StdMutex<ObsShared>>, two_line: bool) -> ProgressStyle {
+    mk_style_gen(key, obs, aux, two_line, 0)
+}
+
+/// `gen` tells the tracker instances of successive styles apart (they share their counters)
+fn mk_style_gen(key: &str, obs: &Arc<StdMutex<ObsShared>>, aux: &Arc<StdMutex<ObsShared>>, two_line: bool, gen: u64) -> ProgressStyle {
     // (optionally below a line that is filled up by the message: the key under test is then the
     // first placeholder of a later template line)
     let t = if two_line { format!("{{wide_msg}}\n<{{{key}}}>{{obs}}") } else { format!("<{{{key}}}>{{obs}}") };
@@ -64,6 +69,7 @@ fn mk_style(key: &str, obs: &Arc<StdMutex<ObsShared>>, aux: &Arc<StdMutex<ObsSha
             Obs {
                 shared: obs.clone(),
                 text: String::new(),
+                gen,
             },
         )
         // a custom key that is registered with the style but not shown by the template: it
@@ -73,6 +79,7 @@ fn mk_style(key: &str, obs: &Arc<StdMutex<ObsShared>>, aux: &Arc<StdMutex<ObsSha
             Obs {
                 shared: aux.clone(),
                 text: String::new(),
+                gen,
             },
         )
 }
@@ -187,10 +194,12 @@ fn exec(sc: &Scenario) -> Report {
         // freeze: strictly after creation/reset so that the rate is defined
         sched::advance_quiet(sc.c("final_gap").max(1));
         let frozen = sched::clock_ns();
+        let mut style_gen: u64 = 0;
         for key in KEYS {
             let ks = key.to_string();
             let drawn = call(|| {
-                pb.set_style(mk_style(&ks, &obs, &aux, sc.c("two_line") == 1));
+                style_gen += 1;
+                pb.set_style(mk_style_gen(&ks, &obs, &aux, sc.c("two_line") == 1, style_gen));
                 pb.force_draw();
             });
             if let Err(p) = drawn {
@@ -215,6 +224,15 @@ fn exec(sc: &Scenario) -> Report {
                     return r;
                 }
             };
+            // the custom key that was written is the one registered with the style set last
+            let wg = obs.lock().unwrap().last_write_gen;
+            if wg != style_gen {
+                r.violate(
+                    "C11.custom_key_state",
+                    format!("{{{key}}}: the draw wrote the custom key registered with style #{wg}, the current style is #{style_gen}"),
+                );
+                return r;
+            }
             // the state handed to a custom key at this draw agrees with the getters
             let (pos, length) = (pb.position(), pb.length());
             {
